@@ -239,6 +239,16 @@ def run(ctx):
                     n += 1
                     ctx.execute("sequence", {"expr": ["AfterPreprocessing", pre, inner, annotate], "values": list(order)})
     ctx.note_space("one AfterPreprocessing instance over the orders of 1, True, 1.0: 5 matchers x 6 orders x annotate", n)
+    # one TarballContains built from a one-shot iterable of paths, consulted several times
+    n = 0
+    for paths in (["p", "q/r"], ["q/r", "p"], ["only"], []):
+        for values in (["t.tar", "t.tar", "t1.tar"], ["t1.tar", "t.tar", "t.tar"], ["t.tar", "t1.tar", "t.tar", "t1.tar"]):
+            for wrap in (False, True):
+                if ctx.mine():
+                    n += 1
+                    e = ["TarballContains", paths, "iter"]
+                    ctx.execute("sequence", {"expr": ["Not", e] if wrap else e, "values": [["path", v] for v in values]})
+    ctx.note_space("one TarballContains over an iterator of paths matched 3-4 times: 4 path lists x 3 orders x 2", n)
     ctx.notes["random_cases"] = True
     for i in range(ctx.scale(80000, 3000000)):
         if ctx.out_of_time():
